@@ -142,7 +142,11 @@ def lean_input(case):
     if case.get("kind", "require") == "require" and not case.get("named") and "_ARGS" not in params and "_KWARGS" not in params and "tick(" not in case["expr"] \
             and not any(isinstance(v, str) and v.isupper() for v in case["env"].values()):
         env, names = names_of(case)
-        out = exprtie.to_lean(case["expr"], names, objs, lookups=[cond_env(case, env), dict(CLOSURE), dict(GLOB)])
+        # the model gets the call as it is - ALL the arguments of the decorated function's call, the condition's parameters and
+        # their defaults, the closure, the globals - and builds the name table itself (`Tbl.ofCall`, model of
+        # `collect_variable_lookup`); invariants have the one argument `self`
+        as_call = case.get("kind") != "invariant"
+        out = exprtie.to_lean(case["expr"], names, objs, lookups=[env if as_call else cond_env(case, env), dict(CLOSURE), dict(GLOB)])
         if out is not None:
             kw = []
             for k in sorted(env.keys()):
@@ -154,6 +158,17 @@ def lean_input(case):
             if out is not None:
                 out["kwargs"] = kw
                 out["condParams"] = list(params)
+                if as_call:
+                    dflt = []
+                    for k, v in sorted((case.get("cond_defaults") or {}).items()):
+                        j = implexpr.to_val(v, objs)
+                        if j is None:
+                            out = None
+                            break
+                        dflt.append([k, j])
+                    if out is not None:
+                        out["call"] = True
+                        out["condDefaults"] = dflt
     if len(_CACHE) > 50000:
         _CACHE.clear()
     _CACHE[key] = (case, out, objs)
